@@ -43,7 +43,7 @@ import (
 
 const concRule = "Concurrent: one goroutine writes 120-400 GOPs (each completes a segment; fragment 0, 1, 2; memory and disk mode; optional AAC bursts, GOPs < 100 ms, 2-4 frames per GOP) through the state-machine engine while 4-8 free-running goroutines call M3u8(own token) and Segment(listed numbers, and the number behind the last listed one). " +
 	"Every served playlist goes through the playlist oracle of the sequential tests as the window ending at its last listed number, which must lie between the number of segments complete before the call and the number that can be complete after it; a listed segment may be refused only when the window can have moved past it, served bytes must equal the bytes recorded by the writer when that number was completed; playlist bytes handed out earlier must not change; a panic is a violation. " +
-	"Non-trivial here: a playlist whose request and return enclose at least one complete rollover (time line read before and after the call); at most 64 fingerprints per reader and case are kept, the class histogram has the full count."
+	"Every served playlist that was judged counts as one evaluation. Non-trivial here: a playlist whose request and return enclose at least one complete rollover (time line read before and after the call); at most 64 fingerprints per reader and case are kept, the class histogram has the full count."
 
 // ---------------------------------------------------------------- time line
 
